@@ -13,6 +13,14 @@ func histProfile(name string, over map[string]int, f func(p *Profile)) *Profile 
 func histSpec(id string, prof *Profile, rule string, nt func(res *Result) bool) *propSpec {
 	return &propSpec{ID: id, Rule: rule, NonTrivial: nt,
 		Gen: func(seed uint64, tier string) *Scenario {
+			if (id == "C02" || id == "C04") && seed%12 == 5 {
+				// backpressure: a member stops reading while relays and its own answers pile up
+				// (socket window, then the send queue of 512, then the broadcasters), then
+				// resumes: everything must arrive exactly once, in order
+				sc := genOffender(seed, tier, "stall")
+				sc.Prop = id
+				return sc
+			}
 			p := *prof
 			if tier == "thorough" {
 				p.MaxSteps = prof.MaxSteps * 2
@@ -24,6 +32,9 @@ func histSpec(id string, prof *Profile, rule string, nt func(res *Result) bool) 
 }
 
 func trig(res *Result, keys ...string) bool {
+	if res.Triggers["offence:stall"] > 0 {
+		return true
+	}
 	if res.Triggers["accepted"] == 0 {
 		return false
 	}
